@@ -795,6 +795,37 @@ func (g *c14Gen) repostSameName() {
 	g.w.stats["same_name_repost_histories"]++
 }
 
+// a LARGE solution set browsed label by label and the as-is row requested again afterwards (and every label a second
+// time): however many solutions the engine has looked up, each label is served from its row of the current summary
+func (g *c14Gen) manyLabels(n int) {
+	e := g.w.newEngine("many-labels-browsed")
+	e.send(c14Req{"POST", c14Api + "/scenario", c14Toml, g.valid})
+	d := e.currentDesc()
+	if d == nil {
+		e.finish("summary-history")
+		return
+	}
+	labels := []string{}
+	encs := map[string]string{}
+	for i := 1; i <= n; i++ {
+		l := fmt.Sprintf("%d-of-%d", i, n)
+		labels = append(labels, l)
+		encs[l] = c14Encoding(g.randomBits(d))
+	}
+	e.send(c14Req{"POST", c14Api + "/solutions", c14Csv, g.summaryWith(d, labels, encs, "large set")})
+	for pass := 0; pass < 2 && !e.dead; pass++ {
+		e.send(c14Req{"GET", c14Api + "/solutions/As-Is", "", ""})
+		for _, l := range labels {
+			if !e.dead {
+				e.send(c14Req{"GET", c14Api + "/solutions/" + l, "", ""})
+			}
+		}
+	}
+	e.send(c14Req{"GET", c14Api + "/solutions/As-Is", "", ""})
+	e.finish("summary-history")
+	g.w.stats["many_label_histories"]++
+}
+
 func c14Perm(p *prng, n int) []int {
 	out := make([]int, n)
 	for i := range out {
